@@ -104,6 +104,17 @@ CHECKS = {
          "scaled so that chunks straddle 32 KiB, an end-to-end PUT on every backend followed by a GET.",
          "TLC model check of the decoder state machine + TLC-enumerated cases executed on the real decoder and end to end",
          "fragment/buffer sequences are cyclic patterns of length <= 2 in the executed cases"),
+ "C15": ("model_checking",
+         "Clean restart: after every mutating transition of the C02 store model the persistent backend (bolt file with fsync on, "
+         "multi- and single-bucket fs on a real directory with on-disk metadata) is closed, a new backend is constructed on the "
+         "same storage and the whole observable state (buckets, listings, bodies, sizes, ETags, metadata) is audited against the "
+         "specification. Crash points: for every mutating transition TLC emits the audits of the state before and after it; the "
+         "harness kills the step before each of its mutating file-system calls (wrapping afero.Fs; nothing after the kill "
+         "happens, deferred clean-up included), restarts on the underlying storage and requires exactly the before- or the "
+         "after-state (S3Persist: in flight = wholly present or wholly absent).",
+         "TLC transition tours replayed with restart before the audit + crash-point enumeration per mutating fs call",
+         "bolt commit internals and the OS page cache are not enumerable: bolt crash points are not covered in the quick tier; "
+         "three crash windows of the fs backends are listed known findings (F17, F24, F25)"),
 }
 
 NOT_YET = {}
